@@ -624,6 +624,46 @@ func genPlacers(r *repo, o *out) {
 		return true
 	})
 	o.def("cachePlaceSwitch", "List (List String × String)", "["+strings.Join(prow, ", ")+"]", "cache.place: placement mode -> what places the shelf at the destination")
+	// CopyPlacer: the directory re-timing of postVisit and the position of the parent-mtime repair
+	cp := r.funcDecl("stitch/placer", "", "CopyPlacer")
+	postVisit := ""
+	var repairPos, removePos token.Pos
+	ast.Inspect(cp, func(n ast.Node) bool {
+		switch x := n.(type) {
+		case *ast.AssignStmt:
+			if len(x.Lhs) == 1 && r.src(x.Lhs[0]) == "postVisit" {
+				if fl, ok := x.Rhs[0].(*ast.FuncLit); ok {
+					var parts []string
+					for _, st := range fl.Body.List {
+						if is, ok := st.(*ast.IfStmt); ok {
+							call := ""
+							ast.Inspect(is.Body, func(m ast.Node) bool {
+								if ce, ok := m.(*ast.CallExpr); ok && strings.HasSuffix(r.src(ce.Fun), ".SetTimesNano") {
+									call = "SetTimesNano(" + argsSrc(r, ce) + ")"
+								}
+								return true
+							})
+							parts = append(parts, "if "+r.src(is.Cond)+" { "+call+" }")
+						} else if _, ok := st.(*ast.ReturnStmt); !ok {
+							parts = append(parts, r.src(st))
+						}
+					}
+					postVisit = strings.Join(parts, "; ")
+				}
+			}
+		case *ast.DeferStmt:
+			if strings.Contains(r.src(x.Call), "RepairMtime(") && repairPos == 0 {
+				repairPos = x.Pos()
+			}
+		case *ast.CallExpr:
+			if r.src(x.Fun) == "os.RemoveAll" && removePos == 0 {
+				removePos = x.Pos()
+			}
+		}
+		return true
+	})
+	o.def("copyPlacerPostVisit", "String", leanStr(postVisit), "CopyPlacer's postVisit: which nodes are re-timed and to what")
+	o.def("copyPlacerRepairBeforeRemove", "Bool", fmt.Sprint(repairPos != 0 && removePos != 0 && repairPos < removePos), "the deferred RepairMtime of the destination's parent is set up before the destination is cleared")
 }
 
 // ---- C03: the hash comparison guards success / Commit ----
@@ -790,7 +830,7 @@ func genModelledFuncs(r *repo, o *out) {
 		{"fs/osfs", "osFS", "realpath"}, {"fs/osfs", "osFS", "_realpath"}, {"fs/osfs", "osFS", "resolveLink"}, {"fs/osfs", "osFS", "ResolveLink"},
 		{"fs/osfs", "osFS", "OpenFile"}, {"fs/osfs", "osFS", "LStat"}, {"fs/osfs", "osFS", "Stat"}, {"fs/osfs", "osFS", "convertFileinfo"}, {"fs/osfs", "osFS", "Readlink"},
 		{"fs/osfs", "", "devModesJoin"}, {"fs/osfs", "", "devModesSplit"},
-		{"fsOp", "", "PlaceFile"}, {"fsOp", "", "ScanFile"}, {"fsOp", "", "MkdirAll"}, {"fsOp", "", "RemoveDirContent"},
+		{"fsOp", "", "PlaceFile"}, {"fsOp", "", "ScanFile"}, {"fsOp", "", "MkdirAll"}, {"fsOp", "", "RemoveDirContent"}, {"fsOp", "", "RepairMtime"},
 		{"transmat/mixins/filters", "", "ApplyPackFilter"}, {"transmat/mixins/filters", "", "ApplyUnpackFilter"},
 		{"transmat/mixins/fshash", "", "HashBucket"}, {"transmat/mixins/fshash", "", "marshalMetadata"},
 		{"transmat/mixins/fshash", "MemoryBucket", "AddRecord"}, {"transmat/mixins/fshash", "MemoryBucket", "UpdateRecord"}, {"transmat/mixins/fshash", "MemoryBucket", "HasRecord"},
